@@ -308,9 +308,15 @@ package ast
 //@   nosite (*Tasks).Values                                                                                             [C06,C08]
 //@   nosite (*Tasks).Get                                                                                                [C06,C08]
 
-// ---- C08: a ':'-prefixed reference loses exactly ONE leading ':' per include level
+// ---- C08: a ':'-prefixed reference refers to the ROOT Taskfile, at whatever depth the referring file is included:
+// the mark survives every merge unchanged (no namespace is ever put in front of it), and is removed from the
+// references of the merged root Taskfile once, after the last merge (TaskfileGraph.Merge$3)
 //@ func taskNameWithNamespace
-//@   ensures strHasPrefix(taskName, ":") ==> result == strTrimPrefix(taskName, ":")                                     [C08]
+//@   ensures strHasPrefix(taskName, ":") ==> result == taskName                                                         [C08]
+//@ func (*TaskfileGraph).Merge$3
+//@   site strings.TrimPrefix#0 requires arg1 == ":"                                                                     [C08]
+//@   nosite strings.TrimLeft                                                                                            [C08]
+//@   nosite strings.ReplaceAll                                                                                          [C08]
 //@   nosite strings.TrimLeft                                                                                            [C08]
 //@   nosite strings.TrimLeftFunc                                                                                        [C08]
 // ---- C09: the order in which Taskfiles of one level are merged is the plain order of their locations (a total
